@@ -140,3 +140,19 @@ Example C14_nonvacuous :
   dget (res_values (run_ng 2 Async 20 int_ng [(1%positive, VInt 5); (32%positive, VInt 9)] None)) 33
     = Some (VTup [VStr 12; VInt 9]).
 Proof. vm_compute. repeat split; reflexivity. Qed.
+
+(* ---- a cacheable interrupt: the response the caller supplied is neither replaced by a cached one nor stored ---- *)
+From HG Require Import Cache CacheProofs CacheInterrupt.
+Theorem C14_supplied_response_bypasses_cache : forall (ckeyT : Type) ckeqb exec (ckey : node -> dict val -> option ckeyT) c n st ins,
+  resuming n st = true -> exec_cached_b ckeyT ckeqb exec ckey c n st ins = (exec n st ins, c).
+Proof. intros. apply resuming_leaves_cache. assumption. Qed.
+Print Assumptions C14_supplied_response_bypasses_cache.
+
+Theorem C14_cached_interrupt_example :
+  let exec := exec_interrupt ft0 in
+  let c1 := snd (exec_cached_b positive Pos.eqb exec key1 [] ask (st_with (VStr 1)) ins0) in
+  c1 = [] /\
+  fst (exec_cached_b positive Pos.eqb exec key1 c1 ask (st_with (VStr 2)) ins0) = OOk [(32%positive, VStr 2)] None /\
+  (exists p, fst (exec_cached_b positive Pos.eqb exec key1 c1 ask st_none ins0) = OPause p).
+Proof. exact repaired_cached_interrupt. Qed.
+Print Assumptions C14_cached_interrupt_example.
